@@ -691,14 +691,22 @@ def shared_arrays(eng, res, rule="R-SHARED-FIELD"):
             continue
         fl = eng.flow(fi)
 
-        def aliases_field(e, at):
-            """the expression is (a plain alias of) an attribute read of a shared field"""
+        def aliases_field(e, at, depth=3):
+            """the expression is (a plain alias of) an attribute read of a shared field — NumPy's asarray / ravel / reshape /
+            view hand back the very same array when they can, so they are aliases too"""
+            from ..effects import ALIAS_CALLS
+
             if isinstance(e, ast.Attribute) and e.attr in fields:
                 return e.attr
-            if isinstance(e, ast.Name) and fl.is_local(e.id):
+            if isinstance(e, ast.Call) and callee_name(e) in ALIAS_CALLS and depth > 0:
+                base = e.args[0] if (e.args and callee_name(e).startswith("as")) else (e.func.value if isinstance(e.func, ast.Attribute) else None)
+                return aliases_field(base, at, depth - 1) if base is not None else None
+            if isinstance(e, ast.Name) and fl.is_local(e.id) and depth > 0:
                 for d in fl.reaching(e.id, at):
-                    if d.kind == "assign" and isinstance(d.value, ast.Attribute) and d.value.attr in fields:
-                        return d.value.attr
+                    if d.kind == "assign" and d.value is not None:
+                        h = aliases_field(d.value, d.nid, depth - 1)
+                        if h:
+                            return h
             return None
 
         for st in own_nodes(fi.node):
